@@ -202,10 +202,10 @@ func (fs *failures) add(class, format string, a ...interface{}) {
 	*fs = append(*fs, failure{class, fmt.Sprintf(format, a...)})
 }
 
-// pick: the first failure that is not a consequence of a hash holding two equal keys, else the first one
+// pick: the first failure that is not a consequence of a literal with a repeated key, else the first one
 func (fs failures) pick() *failure {
 	for i := range fs {
-		if fs[i].class != "dup-keys" {
+		if fs[i].class != "literal-dup-keys" {
 			return &fs[i]
 		}
 	}
@@ -707,7 +707,7 @@ type hslot struct {
 	h       px.OrderedMap
 	mutable *types.MutableHashValue
 	ref     *refMap
-	tainted bool   // holds, or derives from a hash that holds, two equal keys
+	tainted bool   // built from a literal with a repeated key, or derived from such a hash
 	last    string // last observation (immutability: must never change for an immutable hash)
 }
 
@@ -904,7 +904,11 @@ func execHash(steps []sx.Sexp) core.Result {
 				})
 			}
 			if h != nil {
-				made = &hslot{h: h, ref: r}
+				inKeys := []string{}
+				for _, p := range ps {
+					inKeys = append(inKeys, p.k)
+				}
+				made = &hslot{h: h, ref: r, tainted: hasDup(inKeys)}
 				pool = append(pool, made)
 				failClass = "literal-wrong"
 				if len(r.keys) > 0 {
@@ -1024,7 +1028,7 @@ func execHash(steps []sx.Sexp) core.Result {
 				if res != exp {
 					cl := "lookup-wrong"
 					if s.tainted {
-						cl = "dup-keys"
+						cl = "literal-dup-keys"
 					}
 					fs.add(cl, "step %d %s: impl %s reference %s", si, st, res, exp)
 				}
@@ -1093,20 +1097,27 @@ func execHash(steps []sx.Sexp) core.Result {
 			gs := got.String()
 			exp := refObs(s.ref, uniS, true, false)
 			if hasDup(got.keys) {
-				s.tainted = true
-				fs.add("dup-keys", "step %d %s: pool[%d] holds two equal keys: %s", si, st, pi, gs)
+				// two equal keys: the known consequence of a literal with a repeated key, or a new violation (e.g. a merge
+				// of hashes with unique keys that appends a key it should have replaced)
+				cl := "dup-keys"
+				if s.tainted {
+					cl = "literal-dup-keys"
+				}
+				if s.last != gs {
+					fs.add(cl, "step %d %s: pool[%d] holds two equal keys: %s", si, st, pi, gs)
+				}
 			} else if gs != exp.String() {
 				cl := failClass
 				if s != made {
-					cl = "receiver-changed"
+					cl = "hash-receiver-changed"
 					if s.last == gs {
 						cl = "" // already reported when it was made
 					}
 				} else {
 					cl = hashClass(exp, got, failClass)
 				}
-				if s.tainted {
-					cl = "dup-keys"
+				if s.tainted && cl != "" {
+					cl = "literal-dup-keys"
 				}
 				if cl != "" {
 					fs.add(cl, "step %d %s: pool[%d] impl %s reference %s", si, st, pi, gs, exp)
@@ -1356,7 +1367,7 @@ func execArr(steps []sx.Sexp) core.Result {
 			if gs != refStr(s.ref) || s.a.Len() != len(s.ref) {
 				cl := "arr-" + op
 				if s != made {
-					cl = "receiver-changed"
+					cl = "arr-receiver-changed"
 					if s.last == gs {
 						cl = ""
 					}
